@@ -391,6 +391,26 @@ func c09Refs(tier string) *core.Space {
 					j := strings.Index(o, ">")
 					o = o[:i] + "unpack:error" + o[j+1:]
 				}
+				// a and b alone, read into typed map targets (every key is evaluated on its own, in map order)
+				if lq, isLit := c.settings["p.q"].(vx.Lit); isLit && lq == "L" {
+					if lr, isLit := c.settings["p.r"].(vx.Lit); isLit && lr == "L" {
+						c2 := c08Config{settings: map[string]vx.Exp{"a": c.settings["a"], "b": c.settings["b"]}, names: []string{"a", "b"}}
+						if cfg2, err := ucfg.NewFrom(c2.goValue(), opts...); err == nil {
+							var ml map[string][]string
+							if err := cfg2.Unpack(&ml, opts...); err != nil {
+								o += " lists:error"
+							} else {
+								o += fmt.Sprintf(" lists:%v", ml)
+							}
+							var ms map[string]string
+							if err := cfg2.Unpack(&ms, opts...); err != nil {
+								o += " strings:error"
+							} else {
+								o += fmt.Sprintf(" strings:%v", ms)
+							}
+						}
+					}
+				}
 				return o + " " + s
 			}}
 			r := c09Explore(sc, 1, 300)
@@ -547,7 +567,7 @@ func init() {
 			if tier == "thorough" {
 				ts = unionTrees(ts, spines(1), mixedTrees(false)[:30])
 			}
-			return []*core.Space{c09NewFrom(tier), c09IfaceKeys(), c09MergeOverRefs(), c09Merge(ts), c09FieldOptions(), c09Env(), c09Containers(), c09Refs(tier)}
+			return []*core.Space{c09NewFrom(tier), c09IfaceKeys(), c09IfaceOverlap(), c09MergeOverRefs(), c09Merge(ts), c09FieldOptions(), c09Env(), c09Containers(), c09Refs(tier)}
 		},
 		Post: func(tier string, cov map[string]interface{}) {
 			// states/transitions are aggregated by the runner from Result.States/Trans
